@@ -365,6 +365,25 @@ class Generator:
                 deref_bodies[l['body'][0] + 1] = f' let {var} = {var}__n; {var}__n += 1;'
                 add_edit(l['body'][1], l['body'][1], ' }', 'RFORC')
                 applied.append(f'RFORC loop#{k}: for {var} in {a_txt}..{b_txt} -> while with leading increment')
+            elif kind == 'RFORS':
+                # `for x in E { BODY }` over a slice / &Vec  ->  `{ let mut x__n: usize = 0; while x__n < (E).len() INV { let x = &(E)[x__n]; x__n += 1; BODY } }`
+                # (items of `for x in <slice>` are references to the elements in order; the increment comes first, so a `continue`
+                # in BODY behaves as in the for loop). Needed because the installed Verus rejects `continue` inside `for`.
+                k = int(rw[1])
+                fl = [l for l in fn['loops'] if inside(l['span'], span)]
+                if k >= len(fl) or fl[k]['kind'] != 'for':
+                    raise GenError(f'lost-anchor: for-loop #{k} in {u.fnpath}')
+                l = fl[k]
+                var = src[l['pat'][0]:l['pat'][1]].decode().strip()
+                itxt = src[l['iter'][0]:l['iter'][1]].decode().strip()
+                if not re.fullmatch(r'\w+', var) or not re.fullmatch(r'&?[\w.]+', itxt):
+                    raise GenError(f'unsupported: RFORS needs `for <ident> in <path>` in {u.fnpath}')
+                if src[l['body'][0]:l['body'][0] + 1] != b'{':
+                    raise GenError(f'unsupported: for-loop body of {u.fnpath} is not a block')
+                add_edit(l['span'][0], l['body'][0], f'{{ let mut {var}__n: usize = 0; while {var}__n < ({itxt}).len() ', 'RFORS')
+                deref_bodies[l['body'][0] + 1] = f' let {var} = &({itxt})[{var}__n]; {var}__n += 1;'
+                add_edit(l['body'][1], l['body'][1], ' }', 'RFORS')
+                applied.append(f'RFORS loop#{k}: for {var} in {itxt} -> indexed while with leading increment')
             elif kind == 'RDEREF':
                 # `for &x in E { B }` -> `for x__r in E { let x = *x__r; B }` (the reference pattern of a Copy item spelled out;
                 # Verus does not take `&` patterns in `for`)
